@@ -351,6 +351,11 @@ def _gen_slice(repo, blk, gen):
         if not hits2:
             raise LostAnchor(f'{a["file"]}:{a["name"]}: through `{blk["through"]}` not found after from')
         s1 = hits2[0] + n2 - 1
+    for ext in blk.get('extend_if_next', []):
+        # if the tokens right after the slice are exactly `ext` (e.g. `.unwrap()`), they belong to the slice
+        texts = rtok.sig_texts(ext)
+        if [t.text for t in src.s[s1 + 1:s1 + 1 + len(texts)]] == texts:
+            s1 += len(texts)
     label = f'{(a.get("impl") + "::") if a.get("impl") else ""}{a["fn"]}#{a["name"]}'
     p = Piece(src, s0, s1, label)
     _apply_common(p, blk)
@@ -436,6 +441,8 @@ def generate(repo, template_text, variables=None):
             elif d in ('spec', 'prologue', 'epilogue', 'header', 'const_ensures'):
                 blk[d] = []
                 section = blk[d]
+            elif d == 'extend_if_next':
+                blk.setdefault('extend_if_next', []).append(rest)
             elif d == 'for_desugar':
                 blk.setdefault('for_desugar', []).append(rest)
             elif d == 'elide_arg':
